@@ -103,6 +103,28 @@ def handle : P String := do
   | "best" => do
     let mx ← bool; let pop ← list indP
     pure (showOpt showInd (Select.best mx pop))
+  | "nbc" => do
+    -- nbc <mx> <phi> <t> <pop> <n*n distances> <mean|->
+    let mx ← bool; let phi ← rat; let t ← rat; let pop ← list indP
+    let m ← rep (pop.length * pop.length) rat
+    let mean ← TreeProto.optRatP
+    let arr := m.toArray
+    let dist := fun (i j : Nat) => arr.getD (i * pop.length + j) 0
+    pure (match NBC.cluster mx dist pop phi t mean with
+      | some r => showInds r.seeds ++ " | " ++ showList showRat r.dists
+      | none => "none")
+  | "nbcspec" => do
+    -- declarative definition on the same input (thr = fl(mean*phi))
+    let mx ← bool; let phi ← rat; let t ← rat; let pop ← list indP
+    let m ← rep (pop.length * pop.length) rat
+    let mean ← TreeProto.optRatP
+    let arr := m.toArray
+    let dist := fun (i j : Nat) => arr.getD (i * pop.length + j) 0
+    pure (match NBC.truncLen pop.length t, F64.rnd (mean.getD 0 * phi) with
+      | some k, some thr =>
+        let s := (NBC.sortDesc mx (NBC.sortLex (List.zipIdx pop |>.map fun p => (p.2, p.1)))).take k
+        showInds (NBC.spec mx dist s thr)
+      | _, _ => "none")
   | "rnd" => do
     let x ← rat
     pure (showOpt showRat (F64.rnd x))
